@@ -80,6 +80,7 @@ static void write_files(const Scenario &s, vfh::Rng &rng) {
   }
 }
 
+static std::streambuf *g_cout_buf = nullptr, *g_cerr_buf = nullptr;
 struct RunOut { int rc; std::vector<Rec> log; vfsched::Result sr; int begin_calls, end_calls; };
 
 static RunOut run_once(const Scenario &s, int nt, uint64_t sseed, int strategy, int depth, int starve) {
@@ -94,6 +95,7 @@ static RunOut run_once(const Scenario &s, int nt, uint64_t sseed, int strategy, 
   c.ordered = s.ordered; c.expect_frames = s.expected(); c.expect_error = s.too_short();
   // silence the application's chatter
   std::streambuf *oc = std::cout.rdbuf(), *oe = std::cerr.rdbuf();
+  g_cout_buf = oc; g_cerr_buf = oe;
   std::ostringstream sink, esink;
   std::cout.rdbuf(sink.rdbuf()); std::cerr.rdbuf(esink.rdbuf());
   vfsched::begin(c);
@@ -121,6 +123,8 @@ int main(int argc, char **argv) {
 
   vfsched::on_deadlock = [&](const vfsched::Result &r) {
     // runs under the scheduler lock in the deadlocked process: report and leave
+    if (g_cout_buf) std::cout.rdbuf(g_cout_buf);
+    if (g_cerr_buf) std::cerr.rdbuf(g_cerr_buf);
     J w; w.raw("scenario", cur_scn).raw("schedule", cur_sched).s("trace_tail", vfsched::render(r, 300));
     std::vector<int> d(r.decisions.begin(), r.decisions.end());
     w.vec("decisions", d);
